@@ -210,7 +210,18 @@ def run(ctx):
                             # (the extension is recognised whatever its case)
                             ref = rng.choice(['frame.parquet', 'frame.parquet', 'Frame.PARQUET', 'frame.v2.Parquet'])
                             ops.append(None)      # frames are outside the model: oracle only
-                            call = lambda ref=ref: rt.assertDataFrameCorrect(df, os.path.join(data, ref), kind=kind)
+                            fkw = {}
+                            if rng.random() < 0.4:
+                                # the frame is said to come from a file (actual_path is used in messages only): a file
+                                # of the reference's format that holds OTHER data, or one that does not exist
+                                src = os.path.join(data, rng.choice(['source.parquet', 'missing.parquet']))
+                                if src.endswith('source.parquet') and not os.path.exists(src):
+                                    import pandas as pd_
+                                    pd_.DataFrame({'other': [1, 2, 3, 4], 'cols': ['p', 'q', 'r', 's']}).to_parquet(src)
+                                    before = snapshot(data)
+                                fkw = {'actual_path': src}
+                                ctx.bump('frame.actual_path')
+                            call = lambda ref=ref, fkw=fkw: rt.assertDataFrameCorrect(df, os.path.join(data, ref), kind=kind, **fkw)
                             call()
                         oc = 2 if regen_expected else 0
                     except Failed:
@@ -288,6 +299,69 @@ def run(ctx):
                              'after argv %r kind %r regenerate=%r, property requires %r'
                              % (argv_tail, k, bool(rt._should_regenerate(k)), want))
             ctx.count(('argv', tuple(argv_tail)), True)
+        reset_class_state()
+        # ---------------- relative reference names: several objects of one class, each with its own data locations
+        # (set before any of them is used), asserting the same relative name and kind; a regenerating assertion writes
+        # the file in ITS object's location for that kind and nowhere else, and then passes there
+        for it in range(25 if ctx.quick else 400):
+            reset_class_state()
+            root = os.path.join(base, 'loc%d' % it)
+            nobj = rng.randint(2, 3)
+            objs = []
+            for j in range(nobj):
+                rt_j, Failed = make_rt(base)
+                locs = {None: os.path.join(root, 'obj%d' % j)}
+                if rng.random() < 0.5:
+                    locs['csv'] = os.path.join(root, 'obj%d-csv' % j)
+                for k_, d_ in locs.items():
+                    os.makedirs(d_)
+                    rt_j.set_data_location(d_, kind=k_)
+                objs.append((rt_j, locs))
+            name = rng.choice(['out.txt', 'report.txt'])
+            seq = [(rng.randrange(nobj), rng.choice([None, 'csv', 'graph']), 'content of step %d\nline\n' % n_) for n_ in range(rng.randint(2, 5))]
+            case = {'scenario': 'relative reference names, one class, several objects', 'objects': nobj,
+                    'locations': [sorted((str(k_), os.path.relpath(d_, root)) for k_, d_ in l.items()) for _, l in objs],
+                    'steps': [(j, k_, name) for j, k_, _ in seq]}
+            ctx.count(repr(case), True)
+            ctx.bump('relative_names')
+            ReferenceTest.set_regeneration(None, True)
+            want_files = {}
+            okay = True
+            for j, k_, text in seq:
+                rt_j, locs = objs[j]
+                target = os.path.join(locs.get(k_, locs[None]), name)
+                try:
+                    rt_j.assertStringCorrect(text, name, kind=k_)
+                except Exception as e:
+                    ctx.fail(dict(case, step=(j, k_)), 'regenerating assertion raised %s: %s' % (type(e).__name__, str(e)[:200]))
+                    okay = False
+                    break
+                want_files[target] = text
+                have = {}
+                for dp, _, fs_ in os.walk(root):
+                    for f_ in fs_:
+                        have[os.path.join(dp, f_)] = open(os.path.join(dp, f_), encoding='utf-8', newline='').read()
+                if have != want_files:
+                    ctx.fail(dict(case, step=(j, k_)),
+                             'after object %d regenerated %r (kind %r) the locations hold %r, expected %r'
+                             % (j, name, k_, {os.path.relpath(a, root): b for a, b in have.items()},
+                                {os.path.relpath(a, root): b for a, b in want_files.items()}))
+                    okay = False
+                    break
+            ReferenceTest.set_regeneration(None, False)
+            if okay:
+                last = {}
+                for j, k_, text in seq:
+                    last[(j, objs[j][1].get(k_, objs[j][1][None]))] = (k_, text)
+                for (j, _), (k_, text) in last.items():
+                    try:
+                        objs[j][0].assertStringCorrect(text, name, kind=k_)
+                    except Failed as e:
+                        ctx.fail(dict(case, step=(j, k_)), 'object %d: the reference it regenerated does not pass the same '
+                                 'assertion in normal mode: %s' % (j, str(e)[:200]))
+                    except Exception as e:
+                        ctx.fail(dict(case, step=(j, k_)), 'normal-mode assertion raised %s: %s' % (type(e).__name__, str(e)[:200]))
+            shutil.rmtree(root, ignore_errors=True)
         reset_class_state()
         # ---------------- regeneration over an existing reference of the same size and modification time
         # (files from an archive or a reproducible build): the reference must be rewritten, and then pass
